@@ -228,6 +228,14 @@ def rec_level(ck, fm: FuncModel, loop):
     if len(Ys) != 1:
         return None
     Y = Ys.pop()
+    # the next level may be handed over through a copy:  Y = Z  (or `Y = None` as a failure marker), Z being the list
+    # that is emptied and filled
+    ydefs = [n for n in nodes if n.kind == "stmt" and isinstance(n.ast, ast.Assign) and isinstance(n.ast.targets[0], ast.Name)
+             and n.ast.targets[0].id == Y]
+    srcs = {n.ast.value.id for n in ydefs if isinstance(n.ast.value, ast.Name)}
+    if ydefs and len(srcs) == 1 and all(isinstance(n.ast.value, ast.Name) or (isinstance(n.ast.value, ast.Constant) and n.ast.value.value is None)
+                                        for n in ydefs):
+        Y = srcs.pop()
     hdr = fm.cfg.loop_header[loop]
     tb = _tbranch(fm, loop)
     switch = {a.id for a in ass}
@@ -260,7 +268,8 @@ def rec_level(ck, fm: FuncModel, loop):
         for c in _calls_on(n, Y, {"extend", "update"}):
             pushes.append((n, c.args[0] if c.args else None, "coll"))
         if n.kind == "stmt" and isinstance(n.ast, ast.Assign) and isinstance(n.ast.targets[0], ast.Name) \
-                and n.ast.targets[0].id == Y and not _is_empty_container(n.ast.value):
+                and n.ast.targets[0].id == Y and not _is_empty_container(n.ast.value) \
+                and not (isinstance(n.ast.value, ast.Constant) and n.ast.value.value is None):
             v = n.ast.value
             if isinstance(v, ast.BinOp) and isinstance(v.op, (ast.BitOr, ast.Add)) and text(v.left) == Y:
                 pushes.append((n, v.right, "coll"))
@@ -924,8 +933,12 @@ def rec_geom(ck, fm: FuncModel, loop):
                 if b.kind != "branch" or b.test is None:
                     continue
                 t, p = b.test, b.pol
+                tnode = fm.cfg.nodes[next(iter(fm.cfg.g.predecessors(b.id)))]
+                if isinstance(t, ast.Name):
+                    sd0 = fm.single_def(t.id, tnode)     # the whole exit test held in a local
+                    if sd0 and sd0[0].id in _loop_ids(fm, loop):
+                        t, tnode = sd0[1], sd0[0]
                 if p and b.id in _loop_ids(fm, loop) and isinstance(t, ast.BoolOp) and isinstance(t.op, ast.And):
-                    tnode = fm.cfg.nodes[next(iter(fm.cfg.g.predecessors(b.id)))]
                     vals = []
                     for v in t.values:
                         if isinstance(v, ast.Name):
